@@ -26,7 +26,7 @@ ASSUMPTIONS = [
     "VTerm differential: the padded output and the un-padded render are executed on two reference terminals "
     "and compared cell by cell / placement by placement",
     "CENTER/MIDDLE: the side receiving the odd cell is not specified; |before-after| <= 1 is accepted",
-    "fill characters are restricted to one-column glyphs",
+    "fill characters are restricted to one-column strings (single glyphs, and base characters with combining marks)",
 ]
 PERSONAS = ["other", "kitty-0.32", "konsole", "wezterm", "iterm2"]
 SIZES = {"quick": 500, "thorough": 40000}
@@ -565,7 +565,8 @@ def gen(rnd, persona):
         return case
     case["kind"] = rnd.choice(["text", "sgr", "ech", "cuf"] + (["block", "kitty", "iterm2"] if surface == "pad" else []))
     # (one-column characters, including ones that are special to formatting mini-languages)
-    fill = rnd.choice([" ", " ", "", "*", "█", "x", "{", "}", "%", "\\", "$"])
+    # (one-column fills of more than one code point too: a base character with combining marks)
+    fill = rnd.choice([" ", " ", "", "*", "█", "x", "{", "}", "%", "\\", "$", "e\u0301", "o\u0302\u0323"])
     if rnd.random() < 0.35:
         pad = dict(type="exact", dims=[rnd.randint(0, 6) for _ in range(4)], fill=fill)
     else:
